@@ -29,7 +29,16 @@ pub struct Prov {
 }
 
 impl Prov {
+    /// The row sits (or sat, before a compaction carried its versions along) in a fragment that
+    /// was written by an `Operation::Update` transaction: a RewriteRows update / merge_insert
+    /// update moved it there, or a merge_insert inserted it there.
+    fn via_update_transaction(&self) -> bool {
+        self.rewritten_rows || !matches!(self.origin, "create" | "append")
+    }
     fn class(&self) -> String {
+        if self.via_update_transaction() {
+            return "row-written-by-update-transaction".into();
+        }
         format!(
             "{}:{}",
             match self.origin {
@@ -221,7 +230,8 @@ async fn run_case(cx: &Ctx<'_>, seed: u64, idx: u64, selftest: bool) -> (u64, u6
     let mut h = match Hist::create(&mut rng, cfg.clone(), &format!("c17-{seed}-{idx}"), (idx % 4000) as usize + 1).await {
         Ok(h) => h,
         Err(e) => {
-            cx.report.harness_error(&format!("case {idx}: create failed: {}", e.brief()));
+            cx.report.rejected();
+            cx.diag.add(&format!("create:{}", e.brief().chars().take(160).collect::<String>()), 1);
             return (0, 0);
         }
     };
@@ -329,7 +339,7 @@ async fn run_case(cx: &Ctx<'_>, seed: u64, idx: u64, selftest: bool) -> (u64, u6
                 cx.diag.add(&format!("rejected:{}:{}", op.kind(), f.msg().chars().take(80).collect::<String>()), 1);
             }
             Outcome::Failed(f) => {
-                cx.diag.add(&format!("failed:{}:{}", op.kind(), f.brief().chars().take(120).collect::<String>()), 1)
+                cx.diag.add(&format!("failed:{}:{}", op.kind(), f.key()), 1)
             }
         }
         steps += 1;
